@@ -40,6 +40,8 @@ type root struct {
 	notes      map[string]bool
 	lateGhost  map[string]bool
 	localAddrs []*Term
+	localSizes []int64
+	watch      []leaf
 	e        *Engine
 	fn       *ssa.Function
 	c        *Contract
@@ -115,7 +117,7 @@ func (r *FnRun) oblige(st *State, kind, detail string, goal *Term, pos token.Pos
 			}
 		}
 		h := append(append([]*Term{}, hyps...), pc.hyps...)
-		o := &Obligation{Name: n, Func: r.e.relName(r.root.fn), Kind: kind, Hyps: h, Goal: pc.goal, Pos: r.e.pos(pos), Text: text, Tags: tags, Inputs: r.root.inputs}
+		o := &Obligation{Name: n, Func: r.e.relName(r.root.fn), Kind: kind, Hyps: h, Goal: pc.goal, Pos: r.e.pos(pos), Text: text, Tags: tags, Inputs: r.root.inputs, root: r.root}
 		r.root.obls = append(r.root.obls, o)
 	}
 }
